@@ -216,7 +216,7 @@ func corpus() []Case {
 		{"kicked-then-leave", []Op{j(0), p(0), wt(0), av(0, 2), un(0, 2), q(0), lv(0), wt(1), cn(1)}},
 		{"kicked-rejoin-leave", []Op{j(0), p(0), wt(0), av(0, 2), un(0, 2), j(0), p(1), wt(1), av(0, 2), lv(0), wt(2), q(0), un(0, 2), q(0)}},
 		{"invites", []Op{{Op: "invite", V: 0}, {Op: "invite", V: 2}, {Op: "other", V: 0}, {Op: "invite", V: 6}, {Op: "other", V: 7}, {Op: "other", V: 5}}},
-		{"invite-untyped", []Op{{Op: "invite", V: 1}, {Op: "invite", V: 3}}},
+		{"invite-untyped", []Op{{Op: "invite", V: 1}, {Op: "invite", V: 3}, {Op: "invite", V: 8}, {Op: "invite", V: 13}}},
 		{"others", []Op{j(0), p(0), wt(0), {Op: "other", V: 0}, {Op: "other", V: 1}, {Op: "other", V: 2}, {Op: "other", V: 3}, {Op: "other", V: 4}, {Op: "other", V: 6}, q(0), av(0, 0), q(0), {Op: "other", V: 6}, q(0)}},
 		{"stale-context-blocks-publish", []Op{j(0), p(0), wt(0), cn(0), j(0), p(1), av(0, 2), wt(1), q(0)}},
 		{"blocked-publish-cancelled", []Op{j(0), p(0), wt(0), er(0, 0), j(0), p(1), cn(1), j(0), p(2), av(0, 2), wt(2), q(0)}},
@@ -267,7 +267,7 @@ func genOp(r *hx.Rand, w *world) Op {
 	}
 	cs := []choice{
 		{10, func() Op { return Op{Op: "join", A: []int{0, 0, 1, 2}[r.Intn(4)]} }},
-		{3, func() Op { return Op{Op: "invite", V: r.Intn(8)} }},
+		{3, func() Op { return Op{Op: "invite", V: r.Intn(16)} }},
 		{3, func() Op { return Op{Op: "other", V: r.Intn(len(others))} }},
 		{8, func() Op { return Op{Op: "query", A: anyAddr()} }},
 		{5, func() Op { return Op{Op: "avail", A: anyAddr(), V: r.Intn(8)} }},
@@ -429,8 +429,15 @@ func main() {
 			fmt.Fprintln(os.Stderr, err)
 			os.Exit(2)
 		}
-		for i := 0; i < 5; i++ {
-			record(drive(rp.Case, nil))
+		if rp.Case.Name == "second-client-join" {
+			for _, v := range dupScenario() {
+				res.Fail(v.Key, v.What, rp.Case)
+			}
+			res.Count("second-client-join", true, "second-client-join")
+		} else {
+			for i := 0; i < 5; i++ {
+				record(drive(rp.Case, nil))
+			}
 		}
 		res.CaseFiles = cf.Write(opts.Out, 400)
 		res.Extra["model_cases"] = cf.Len()
@@ -446,6 +453,10 @@ func main() {
 		}
 		record(o)
 	}
+	for _, v := range dupScenario() {
+		res.Fail(v.Key, v.What, Case{Name: "second-client-join", Ops: []Op{}})
+	}
+	res.Count("second-client-join", true, "second-client-join")
 	if os.Getenv("C18_DEBUG") == "corpus" {
 		res.CaseFiles = cf.Write(opts.Out, 400)
 		res.Write(opts.Out)
